@@ -17,6 +17,8 @@ PC = "chalk_solve::clauses::program_clauses::ToProgramClauses"
 
 
 def run(ck, facts, tier):
+    from props.c14 import generalize_before_bind
+    generalize_before_bind(ck, facts, "C07.NESTED-ALIAS-GENERALIZED")
     from props.c18 import alias_rows
     alias_rows(ck, facts, "C07.ALIAS-NOT-FILTERED")
     from shared import clauses as _clx
